@@ -16,7 +16,9 @@ CLAIMED = {
              "inputs is extracted (fail closed) and checked by vm_compute. The chain to the C++ callee: C04 (interface = "
              "prototype), C02 (C wrapper delivers), C10 (string helpers). Search / validation: every generated library is built "
              "as a direct C++ program and as a Fortran program using only the generated module (gfortran + g++ under ASan, option "
-             "sets plain / debug / F_CFI) with the same values; callee-side trace and caller-side results must be identical.",
+             "sets plain / debug / F_CFI) with the same values; callee-side trace and caller-side results must be identical. The checked "
+             "call also requires output dummies to be passed by their own storage or copied back (theorem: the caller sees what C "
+             "stored) and a character dummy passed as its own storage to travel with len / len_trim of itself.",
         note="Trusted: Coq kernel, the flow extractor tools/fflow.py, the generator tools/eqgen.py, gfortran/g++/ASan. Result and "
              "output-argument delivery (copy-out, allocation, blank padding) is covered by the runs and by C10's theorems, not by a "
              "theorem here; language c libraries and generic / assumed-rank variants only through the regression inputs in the table.",
@@ -30,7 +32,9 @@ CLAIMED = {
              "validation on every run: the argument flow of every C wrapper generated from /repo for 30+ generated libraries and "
              "9 regression inputs is extracted from the wrapper sources (fail closed) and checked by vm_compute. Search / "
              "validation: every generated library is built twice (direct C++ calls; calls through the generated C API only) under "
-             "AddressSanitizer with the same argument values; callee-side trace and caller-side results must be identical.",
+             "AddressSanitizer with the same argument values; callee-side trace and caller-side results must be identical. The check "
+             "requires a std::string parameter to be built in the wrapper (no raw C string) and the object pointer to be const exactly "
+             "when the member is const.",
         note="Trusted: Coq kernel, the flow extractor tools/cflow.py, the library/driver generator tools/eqgen.py, g++/ASan. "
              "Result conversions, overload/default/template reachability (C08) and ownership (C06) are not in this model; "
              "wrappers with vector / struct / function-pointer parameters are outside the covered grammar (counted).",
@@ -114,7 +118,9 @@ CLAIMED = {
              "with text in between; the marker lines Shroud writes are recognised by its reader for every blank-free name; "
              "force > user > default; regenerate round trip; lines reach the file verbatim (partial: no TAB/FF, no trailing '+'), "
              "full statement refuted with two witnesses = known findings. Tie: extracted model vs real functions on random "
-             "files; end-to-end real runs with user bodies via splicer files, splicer_code and declaration splicers.",
+             "files; end-to-end real runs with user bodies via splicer files, splicer_code and declaration splicers (list and block-scalar "
+             "form), the round trip on the implementation (generated files fed back as splicer files reproduce every block) and the "
+             "scope of each Fortran module's file-level blocks.",
         note="Trusted: Coq kernel, extraction, harness. PyYAML and Python's text layer not modelled. Known findings: TAB/FF and "
              "trailing '+' in user lines, generated getter/setter blocks ignore user code.",
         technique="Coq proof over hand model + extracted-model correspondence + end-to-end oracle",
@@ -138,7 +144,9 @@ CLAIMED = {
              "char* intent(out) case proved to read out of bounds). Table theorem (vm_compute over a table regenerated from "
              "statements.py for c and c++ on every run): every helper call site passes the declared length where a capacity is "
              "needed and the trimmed length where the text length is needed. Tie: helper C text pulled from whelpers at run time, "
-             "compiled with gcc and g++ under ASan/UBSan, exhaustive small-scope comparison with the extracted model.",
+             "compiled with gcc and g++ under ASan/UBSan, exhaustive small-scope comparison with the extracted model (text and the "
+             "allocator-reported room of the block handed to C; theorem: nsrc+1 bytes). The table also lists every store by index "
+             "into the caller's buffer (only index 0 admitted).",
         note="Trusted: Coq kernel, extraction, harness, gcc/g++/libc. Modelled: the helpers and the call-site argument classes; "
              "the Fortran-side trim()//C_NULL_CHAR and std::string internals are taken at their standard meaning.",
         technique="Coq proof over hand model + regenerated table theorem + compiled-helper correspondence",
@@ -207,7 +215,8 @@ CLAIMED = {
              "registers exactly os.path.join(dir, file) in cfiles, every Fortran site in ffiles, nobody else does. Search/validation: "
              "whole-run relations on the implementation: the 12 admissible library-level flag combinations, --cfiles/--ffiles "
              "contents vs files on disk, byte equality of C/Fortran files across Python/Lua toggles, separate output directories, "
-             "per-declaration overrides on plain/defaulted/string/overloaded/templated/generic functions.",
+             "per-declaration overrides on plain/defaulted/string/overloaded/templated/generic functions. Coq theorem over the naming "
+             "model: per-declaration wrap flags select among the names of the unflagged library and never renumber them.",
         note="Trusted: Coq kernel, the ast scan, harness. The wrap.assign/clear sites of generate.py are not modelled in Coq; they are "
              "covered by the per-declaration override relation (which found and led to fixing has_default_args).",
         technique="Coq proof (flag algebra) + regenerated source-scan table (vm_compute) + whole-run relation oracle",
@@ -220,7 +229,8 @@ CLAIMED = {
              "registration; the version stamp is a comment line. Coq theorem (from the Text model): a hint-free comment line stays "
              "one physical line starting with its leader and does not move the indentation. Search/validation: pairs of real runs "
              "differing in one option (globally and on single declarations) over corpus entries and a generated library: same "
-             "file set and identical token streams after comment removal.",
+             "file set and identical token streams after comment removal. Coq theorem: a block of comment lines inserted anywhere in a "
+             "file's line list leaves the rendering of all other lines unchanged (text, indentation, final state).",
         note="Trusted: Coq kernel, tools/scan_guards.py (syntactic classifier; write_doxygen/document_stmts/gen_decl trusted to be "
              "comment producers / pure), the comment strippers. A new kind of guarded statement makes the obligation fail (fail closed).",
         technique="regenerated source-scan table (vm_compute) + Coq Text lemma + comment-stripped run comparison",
